@@ -365,6 +365,14 @@ class Segment:
             self.objects[key] = writer
         snap_before = self.bridge.snapshot(entry["obj"])
         fault = op.get("fault")
+        intended = None
+        if fault is not None and fault["kind"] == "tear" and fmt == "uvl":
+            # what the killed writer meant to leave on the disk (serialisation is a pure function
+            # of the model, C12), to judge the torn file the next interpreter finds
+            try:
+                intended = wcls(None, entry["obj"]).transform()
+            except Exception:  # noqa: BLE001
+                intended = None
         self.disk.begin_op(fault)
         ret = None
         exc = None
@@ -377,8 +385,19 @@ class Segment:
             self.probe("fault_fired.tear")
             if rel is not None:
                 after = self.read_bytes(rel)
+                must_raise = False
+                if isinstance(intended, str) and after is not None:
+                    full = intended.encode("utf-8")
+                    if full.startswith(after) and len(after) < len(full):
+                        try:
+                            cut = len(after.decode("utf-8"))
+                            from . import peers
+                            must_raise = peers.uvl_prefix_is_invalid(intended, cut)
+                        except UnicodeDecodeError:
+                            must_raise = True     # cut inside a multi-byte character
                 self.files[rel] = {"fmt": fmt, "state": "torn", "ref": None,
-                                   "sha": None if after is None else sha(after)}
+                                   "sha": None if after is None else sha(after),
+                                   "must_raise": must_raise}
             raise
         except Exception as err:  # noqa: BLE001
             exc = err
@@ -694,6 +713,11 @@ class Segment:
             taint = not wf_ok or observed is None
             if state in ("torn", "corrupt", "partial"):
                 self.probe("damaged_document_accepted")
+                if fentry.get("must_raise"):
+                    self.fail(negprop, fmt + ".torn_inside_token_accepted", site,
+                              "the writer was killed inside a quoted token, an open bracket or "
+                              "after a binary operator; the prefix it left is not a %s document "
+                              "but a model was returned" % fmt, tags)
                 valid = self.independently_valid(fmt, data)
                 if valid is False:
                     self.fail(negprop, fmt + ".invalid_container_accepted", site,
@@ -764,6 +788,8 @@ class Segment:
             elif state in ("torn", "corrupt", "partial", "missing") or \
                     (state == "peer" and fentry["expect"]["kind"] == "raise"):
                 self.probe("damaged_document_rejected")
+                if (fentry or {}).get("must_raise"):
+                    self.probe("torn_inside_token_rejected")
 
     def check_ctc_names(self, doc_ref, model, site, tags):
         """C02: asking a constraint for its features returns exactly the feature names written
